@@ -357,3 +357,63 @@ func verifLemma_C29_multipolygon() {
 	verifrt.Assert(err == nil, "read-succeeds")
 	verifrt.Assert(n == 4 && seen == 1, "three-way-areas-and-the-multipolygon-area")
 }
+
+// C28 (bounded shape): enumeration of a layered world. vListWorld is a b6.World that
+// enumerates a fixed list sequentially (a test double: only EachFeature and
+// HasFeatureWithID are its own); the real OverlayWorld.EachFeature and its filter closure
+// run over two of them. Upper layer: relations 1 and 2; base: relations 2 (shadowed) and 3.
+// Whichever of the three callback invocations fails (k = 3: none), the enumeration returns
+// an error exactly when a callback failed and never calls the callback again.
+type vListWorld struct {
+	b6.EmptyWorld
+	fs []b6.Feature
+}
+
+func (w vListWorld) EachFeature(each func(f b6.Feature, goroutine int) error, options *b6.EachFeatureOptions) error {
+	for _, f := range w.fs {
+		if err := each(f, 0); err != nil {
+			return err
+		}
+	}
+	return nil
+}
+
+func (w vListWorld) HasFeatureWithID(id b6.FeatureID) bool {
+	for _, f := range w.fs {
+		if f.FeatureID() == id {
+			return true
+		}
+	}
+	return false
+}
+
+func verifLemma_C28_overlay_world_enumeration(k int) {
+	verifrt.Assume(0 <= k && k <= 3)
+	r1 := &RelationFeature{RelationID: FromOSMRelationID(1)}
+	r2 := &RelationFeature{RelationID: FromOSMRelationID(2)}
+	r2b := &RelationFeature{RelationID: FromOSMRelationID(2)}
+	r3 := &RelationFeature{RelationID: FromOSMRelationID(3)}
+	w := NewOverlayWorld(vListWorld{fs: []b6.Feature{r1, r2}}, vListWorld{fs: []b6.Feature{r2b, r3}})
+	broken := errors.New("broken")
+	calls := 0
+	baseVersionOfShadowedSeen := false
+	each := func(f b6.Feature, g int) error {
+		calls++
+		if f == b6.Feature(r2b) {
+			baseVersionOfShadowedSeen = true
+		}
+		if calls == k+1 {
+			return broken
+		}
+		return nil
+	}
+	err := w.EachFeature(each, &b6.EachFeatureOptions{})
+	verifrt.Assert(!baseVersionOfShadowedSeen, "shadowed-base-feature-is-not-enumerated")
+	if k < 3 {
+		verifrt.Assert(err != nil, "the-callback-error-is-reported")
+		verifrt.Assert(calls == k+1, "no-callback-after-the-failing-one")
+	} else {
+		verifrt.Assert(err == nil, "success-when-no-callback-fails")
+		verifrt.Assert(calls == 3, "three-features")
+	}
+}
